@@ -1,3 +1,62 @@
-From Coq Require Import List.
-Require Import AOV.base.Num AOV.model.Interp.
-Theorem C16_placeholder : True. Proof. exact I. Qed.
+(* C16 -- Binning, zooming and radial reductions preserve image content.
+   Model: coq/model/Interp.v (hand-written; the spline evaluation of zoom_rbs is a parameter with the
+   interpolation contract), circle from model/Pupil.v. *)
+From Coq Require Import Reals List Arith.
+Require Import AOV.base.Num AOV.base.NumR AOV.base.Cplx AOV.model.Pupil AOV.model.Interp
+               AOV.proofs.Mat_proofs AOV.proofs.C16_proofs.
+Import ListNotations.
+Local Open Scope R_scope.
+
+(* binning by n returns exactly the n x n block sums, preserves the total flux, frame by frame in stacks *)
+Theorem C16_bin_is_block_sums : forall G K r c (m : list (list R)) n i j,
+  wf_mat (r * n) (c * n) m -> (0 < n)%nat -> (i < r)%nat -> (j < c)%nat ->
+  ent (bin2d (ROps G K) m n) i j = rsum (fun a => rsum (fun b => ent m (i * n + a) (j * n + b)) n) n.
+Proof. exact bin2d_blocks. Qed.
+Print Assumptions C16_bin_is_block_sums.
+
+Theorem C16_bin_preserves_flux : forall G K r c n,
+  (forall (m : list (list R)), wf_mat (r * n) (c * n) m -> (0 < n)%nat -> sum2 (ROps G K) (bin2d (ROps G K) m n) = sum2 (ROps G K) m) /\
+  (forall frames, Forall (wf_mat (r * n) (c * n)) frames -> (0 < n)%nat ->
+     map (sum2 (ROps G K)) (binNd (ROps G K) frames n) = map (sum2 (ROps G K)) frames).
+Proof. intros G K r c n. split; [intros m; apply bin_flux|intros frames; apply bin_stack_flux]. Qed.
+Print Assumptions C16_bin_preserves_flux.
+
+(* zoom from the spline contract "interpolates its nodes": identity at equal size, passes through the
+   original samples when the new grid contains the old nodes *)
+Theorem C16_zoom_identity_and_nodes : forall G K (spline : list (list R) -> nat -> R -> R -> R),
+  (forall m k i j, (i < length m)%nat -> (j < length (hd [] m))%nat -> spline m k (INR i) (INR j) = ent m i j) ->
+  forall N (m : list (list R)) k, wf_mat N N m -> (1 < N)%nat ->
+  zoom_rbs (ROps G K) spline m N N k = m /\
+  forall q a b, (1 <= q)%nat -> (a < N)%nat -> (b < N)%nat ->
+    ent (zoom_rbs (ROps G K) spline m (q * (N - 1) + 1) (q * (N - 1) + 1) k) (q * a) (q * b) = ent m a b.
+Proof. intros G K spline Hs N m k Hwf HN. split; [apply (zoom_identity G K spline Hs); assumption|].
+  intros q a b Hq Ha Hb. apply (zoom_passes_samples G K spline Hs); assumption. Qed.
+Print Assumptions C16_zoom_identity_and_nodes.
+
+(* azimuthal average: a constant image gives that constant; every value lies within the data range *)
+Theorem C16_azimuthal_average : forall G K n (data : list (list R)), wf_mat n n data ->
+  (forall c, (forall a b, (a < n)%nat -> (b < n)%nat -> ent data a b = c) ->
+     azimuthal_average (ROps G K) data = repeat c (n / 2)) /\
+  (forall lo hi i, (forall a b, (a < n)%nat -> (b < n)%nat -> lo <= ent data a b <= hi) -> (i < n / 2)%nat ->
+     lo <= nth i (azimuthal_average (ROps G K) data) 0 <= hi).
+Proof. intros G K n data Hwf. split; [intros c Hc; apply (azimuthal_const_all G K n data c Hwf Hc)|].
+  intros lo hi i Hb Hi. apply (azimuthal_bounds G K n data lo hi i Hwf Hb Hi). Qed.
+Print Assumptions C16_azimuthal_average.
+
+(* encircled energy of a non-negative image: within [0,1], non-decreasing in the radius, 0 for an empty mask *)
+Theorem C16_encircled_energy_curve : forall G K n (data : list (list R)) xc yc, wf_mat n n data ->
+  (forall i j, (i < n)%nat -> (j < n)%nat -> 0 <= ent data i j) -> 0 < sum2 (ROps G K) data ->
+  (forall r, 0 <= ee_val G K data xc yc r <= 1) /\
+  (forall r1 r2, 0 <= r1 <= r2 -> ee_val G K data xc yc r1 <= ee_val G K data xc yc r2) /\
+  (forall r, (forall i j, (i < 2 * (n / 2))%nat -> (j < 2 * (n / 2))%nat -> circle_px (ROps G K) r (2 * (n / 2)) xc yc false i j = false) ->
+     ee_val G K data xc yc r = 0) /\
+  (forall rads, map snd (ee_curve (ROps G K) data xc yc rads) = map (ee_val G K data xc yc) rads).
+Proof. intros G K n data xc yc Hwf Hnn Hpos. repeat apply conj.
+  - apply (ee_range G K n data xc yc Hwf Hnn Hpos).
+  - apply (ee_monotone G K n data xc yc Hwf Hnn Hpos).
+  - intros r He. apply (ee_empty_zero G K n data xc yc r Hwf He).
+  - intros rads. apply ee_curve_snd. Qed.
+Print Assumptions C16_encircled_energy_curve.
+
+Example C16_nonvacuous : wf_mat (1 * 2) (2 * 2) [[1;2;3;4];[5;6;7;8]] /\ (0 < 2)%nat.
+Proof. split; [split; [reflexivity|repeat constructor]|repeat constructor]. Qed.
